@@ -246,26 +246,31 @@ def timing(run, c, inv):
             A = rx.build(pat, fullmatch=True)
             mts = rx.minterms(rx.charsets(A))
             reps = [chr(min(m)) if min(m) < 128 else "Ā" for m in mts][:12]
+            # the input length is scaled to the PROVED ambiguity degree d (cost O(n^(d+1)) under A7), so that a polynomial pattern
+            # stays far below the time-out and only super-polynomial behaviour can trip it: n^(d+1) <= ~3e7 steps
+            d, _ = rx.degree(pat)
+            cap = 300 if run.tier == "quick" else 1500
+            nrep = max(40, min(cap, int((3e7) ** (1.0 / (d + 1)))))
             for ch in reps:
                 for suf in ("!", "\n\n"):
-                    w = ch * (300 if run.tier == "quick" else 1500) + suf
+                    w = ch * nrep + suf
                     n += 1
                     signal.setitimer(signal.ITIMER_REAL, 4.0)
                     t = time.perf_counter()
                     try:
                         rxo.match(w)
                     except TO:
-                        fails.append((pat, ch, suf))
+                        fails.append((pat, ch, suf, nrep))
                     finally:
                         signal.setitimer(signal.ITIMER_REAL, 0)
     finally:
         signal.signal(signal.SIGALRM, old)
     run.add_bounded("every inventoried pattern", "pumped single-class inputs under a 4 s time-out",
-                    "each minterm representative x %d repetitions x 2 failing suffixes" % (300 if run.tier == "quick" else 1500),
-                    n, fails, seconds=time.time() - t0)
-    for pat, ch, suf in fails[:1]:
-        w = ch * 300 + suf
-        run.violation("bounded:timing[%s]" % _short(pat), "polynomial matching time", "pattern %r stalls on %r*300+%r" % (pat, ch, suf),
+                    "each minterm representative x up to %d repetitions (scaled to the proved degree) x 2 failing suffixes"
+                    % (300 if run.tier == "quick" else 1500), n, fails, seconds=time.time() - t0)
+    for pat, ch, suf, nrep in fails[:1]:
+        w = ch * nrep + suf
+        run.violation("bounded:timing[%s]" % _short(pat), "polynomial matching time", "pattern %r stalls on %r*%d+%r" % (pat, ch, nrep, suf),
                       "import re, signal\nclass TO(Exception): pass\ndef h(*a): raise TO()\nsignal.signal(signal.SIGALRM, h)\n"
                       "signal.alarm(4)\ntry:\n re.compile(%r).match(%r)\nexcept TO: REPRODUCED('no answer within 4 s on %d characters')\n"
                       "signal.alarm(0)\nNOT_REPRODUCED()\n" % (pat, w, len(w)))
